@@ -18,6 +18,7 @@ import PyroModel.Pool
 import PyroProofs.Lock
 import PyroProofs.Pool
 import PyroProofs.PoolProbe
+import PyroProofs.PoolConn
 import PyroModel.Gen.C18
 
 namespace Pyro.C18
@@ -262,6 +263,92 @@ theorem C18_close_exits (mn mx : Nat) (hm : mn ≤ mx) (acts more : List Act) (w
   have h : Inv mx s := inv_run mn mx (init mn) acts (inv_init mn mx hm)
   obtain ⟨x, hx⟩ : ∃ x, s.ws[w]? = some x := ⟨_, List.getElem?_eq_getElem hw⟩
   exact close_exits_aux mn mx w more s x h hc hfin hx (Nat.le_trans (rank_le x) hcnt)
+
+/-! ### one connection: served until it ends and then closed, or refused — in bounded time — and closed -/
+
+/-- **C18_gen_conn.**  The real `ClientConnectionJob.__call__`, `denyConnection` and one accept step
+    `SocketServer_Threadpool.events()` were RUN on in-memory fakes for every script (handshake ok / refused /
+    raising × disconnect hook ok / raising × 0..2 served requests followed by each way a request can end;
+    refusing handshake ok / raising; COMMTIMEOUT set or not × pool full or not) and the sequence of effects on the
+    connection's socket is on every row exactly the model's (`PoolConn.jobCall / deny / acceptStep`); no exception
+    came out of any of them; and whenever the pool was full and COMMTIMEOUT is configured the socket already had
+    its timeout when the refusing handshake began to read. -/
+theorem C18_gen_conn :
+    (Pyro.Gen.C18.connJobTable.all PoolConn.checkJobRow = true ∧ Pyro.Gen.C18.connJobTable.length = 68) ∧
+    (Pyro.Gen.C18.connDenyTable.all PoolConn.checkDenyRow = true ∧ Pyro.Gen.C18.connDenyTable.length = 4) ∧
+    (Pyro.Gen.C18.acceptTable.all PoolConn.checkAcceptRow = true ∧ Pyro.Gen.C18.acceptTable.length = 8) := by
+  decide +kernel
+
+/-- **C18_conn_closed.**  A connection handed to a worker, for every way the handshake, each request and the
+    disconnect hook can end (any number of requests): as long as every request is served it is still being served
+    and its socket is not closed; as soon as the handshake fails or one request ends in any exception the
+    job ends, and then the socket has been closed exactly once, as the very last effect — also when the
+    disconnect hook raises — and the hook ran exactly once after a successful handshake.  A refused connection
+    (`deny`) is closed right after the refusing handshake, also when that handshake raises.  No accepted
+    connection is left open by the server once it stops serving it. -/
+theorem C18_conn_closed (hs : PoolConn.Hs) (reqs : List PoolConn.Req) (hookRaises hsRaises : Bool) :
+    let p := PoolConn.jobCall hs reqs hookRaises
+    (p.2 = true → hs = .ok ∧ (∀ r ∈ reqs, r = .served) ∧ PoolConn.Eff.close ∉ p.1) ∧
+    (p.2 = false → p.1.count .close = 1 ∧ p.1.getLast? = some .close ∧
+        (hs = .ok → (∃ r ∈ reqs, r ≠ .served) ∧ p.1.count .hook = 1)) ∧
+    (p.2 = false ↔ (hs ≠ .ok ∨ ∃ r ∈ reqs, r ≠ .served)) ∧
+    PoolConn.deny hsRaises = [.handshakeDenied, .close] := by
+  intro p
+  cases hs with
+  | ok =>
+    have hp : p = (PoolConn.Eff.handshake :: (PoolConn.serve hookRaises reqs).1, (PoolConn.serve hookRaises reqs).2) := rfl
+    refine ⟨?_, ?_, ?_, rfl⟩
+    · intro h; rw [hp] at h ⊢
+      obtain ⟨h1, h2, _⟩ := PoolConn.serve_still hookRaises reqs h
+      exact ⟨rfl, h1, by simp only [List.mem_cons, not_or]; exact ⟨by decide, h2⟩⟩
+    · intro h; rw [hp] at h ⊢
+      obtain ⟨h1, h2, h3, h4, _⟩ := PoolConn.serve_done hookRaises reqs h
+      refine ⟨?_, ?_, fun _ => ⟨h1, ?_⟩⟩
+      · simp only [List.count_cons]; rw [h2]; decide
+      · show (PoolConn.Eff.handshake :: (PoolConn.serve hookRaises reqs).1).getLast? = _
+        rw [List.getLast?_cons, h4]; rfl
+      · simp only [List.count_cons]; rw [h3]; decide
+    · rw [hp]
+      constructor
+      · intro h; exact Or.inr (PoolConn.serve_done hookRaises reqs h).1
+      · intro h
+        rcases h with h | ⟨r, hr, hne⟩
+        · exact absurd rfl h
+        · cases hst : (PoolConn.serve hookRaises reqs).2 with
+          | false => rfl
+          | true => exact absurd ((PoolConn.serve_still hookRaises reqs hst).1 r hr) hne
+  | refused =>
+    have hp : p = ([PoolConn.Eff.handshake, PoolConn.Eff.close], false) := rfl
+    rw [hp]
+    refine ⟨fun h => ?_, fun _ => ⟨by decide, by decide, fun h => ?_⟩, ?_, rfl⟩
+    · exact absurd h (by decide)
+    · exact absurd h (by decide)
+    · exact ⟨fun _ => Or.inl (by decide), fun _ => rfl⟩
+  | raises =>
+    have hp : p = ([PoolConn.Eff.handshake, PoolConn.Eff.close], false) := rfl
+    rw [hp]
+    refine ⟨fun h => ?_, fun _ => ⟨by decide, by decide, fun h => ?_⟩, ?_, rfl⟩
+    · exact absurd h (by decide)
+    · exact absurd h (by decide)
+    · exact ⟨fun _ => Or.inl (by decide), fun _ => rfl⟩
+
+/-- **C18_refusal_bounded.**  One accept step, for every configuration: the connection is either handed to the
+    pool or — pool full — refused and closed in the accept loop itself; and when COMMTIMEOUT is configured the
+    socket's timeout is set BEFORE the only blocking read the accept loop performs on a client socket (the
+    refusing handshake), so a client that never sends its CONNECT message cannot park the accept loop: every later
+    connection is still accepted, served or refused. -/
+theorem C18_refusal_bounded (commtimeout poolFull hsRaises : Bool) :
+    let t := PoolConn.acceptStep commtimeout poolFull hsRaises
+    (poolFull = false → t.getLast? = some .handOver ∧ PoolConn.Eff.handshakeDenied ∉ t ∧ PoolConn.Eff.close ∉ t) ∧
+    (poolFull = true → t.getLast? = some .close ∧ t.count .close = 1 ∧ t.count .handshakeDenied = 1 ∧ PoolConn.Eff.handOver ∉ t) ∧
+    (commtimeout = true → poolFull = true →
+      ∃ pre post, t = pre ++ [.handshakeDenied] ++ post ∧ PoolConn.Eff.settimeout ∈ pre) := by
+  cases commtimeout <;> cases poolFull <;> cases hsRaises <;>
+    refine ⟨by decide, by decide, ?_⟩ <;> intro h1 h2 <;>
+    first
+      | exact absurd h1 (by decide)
+      | exact absurd h2 (by decide)
+      | exact ⟨[.accept, .settimeout], [.close], rfl, by decide⟩
 
 /-! ### the code before the fix: the same micro-steps with no lock -/
 
